@@ -22,6 +22,8 @@ type SrcGen struct {
 	CRLF bool
 	Feat map[string]int
 	n    int
+
+	lastAttr string
 }
 
 func (g *SrcGen) feat(k string) {
@@ -508,6 +510,12 @@ func (g *SrcGen) name(bases []string, prefix string) string {
 
 func (g *SrcGen) attr(level, depth int, oneLine bool) string {
 	name := g.name([]string{"a", "name", "with-dash", "é", "_u"}, "")
+	if g.lastAttr != "" && g.r("prefix-name", 4) == 0 {
+		// a name that has an earlier attribute's name as a prefix
+		g.feat("attr:name-extends-earlier-name")
+		name = g.lastAttr + "x"
+	}
+	g.lastAttr = name
 	s := name + g.ws(false) + "=" + g.ws(false)
 	if !oneLine && g.r("heredoc", 6) == 0 {
 		return s + g.heredoc(depth) + g.nl()
